@@ -245,6 +245,32 @@ def main():
 
     bounded = []
     extra_cov = {}
+    if not new and tier == 'quick' and cfg.get('replayer'):
+        # Bounded native search on the real crate (seconds), run on every quick check next to the proof: it covers what
+        # the trusted std specifications cannot see (e.g. an allocation sized by the caller's capacity) and stands in
+        # when the verifier is undecided (lost anchor, unsupported construct).  It can only add a VIOLATION with a
+        # concrete failing input (confirmed by a second run); it never turns UNDECIDED into OK and nothing it
+        # explores is counted as proved.
+        found = None
+        try:
+            found = cfg['replayer'](None, tier)
+            if found:
+                again = cfg['replayer'](None, tier)
+                if not again:
+                    undecided.append('bounded native search: a failing input did not reproduce: %s' % json.dumps(found)[:300])
+                    found = None
+        except Exception as e:
+            found = None
+            bounded.append('bounded native search failed to run: %r' % (e,))
+        bounded.append('bounded native search of the real crate next to the proof (%s; labelled bounded, never counted as proved)'
+                       % ('found a failing input' if found else 'no failing input'))
+        if found:
+            rp = os.path.join(VERIF, 'replays', '%s-b0.json' % pid)
+            json.dump({'property': pid, 'obligation': ['bounded: native observation on the real crate contradicts the property'
+                                                       + ((' (the deductive check was undecided: %s)' % '; '.join(undecided)[:600]) if undecided else '')],
+                       'failing_input': found}, open(rp, 'w'), indent=1)
+            replay_paths.append((rp, found))
+            violations += 1
     if tier == 'thorough' and cfg.get('thorough'):
         try:
             extra = cfg['thorough'](tier)
